@@ -132,6 +132,12 @@ func (dr DateRange) Compare(dr2 DateRange) DateRangeComparison {
 	start := compareDatesForLetter(dr.start, dr2.start, dr2.end)
 	end := compareDatesForLetter(dr.end, dr2.start, dr2.end)
 
+	// When dr2 is a single day its start and its end are the same day. The end
+	// of dr that falls on that day is at the end of dr2, not just at its start.
+	if end == "e" && compareDatesForLetter(dr.end, dr2.end, dr2.end) == "e" {
+		end = "E"
+	}
+
 	return dateRangeCompareMatrix[start+end]
 }
 
